@@ -1,7 +1,7 @@
 (* C16 — a scheme is a consistent registry of uniquely named fields, functions
    and lists.  This file contains only the property theorems, closed by [exact]. *)
 From Coq Require Import List NArith Bool Arith.
-From WF Require Import Base.Bytes Lang.Types Sem.Registry Spec.C16 Proofs.RegistryProofs.
+From WF Require Import Base.Bytes Lang.Types Sem.Registry Spec.C16 Proofs.RegistryProofs Sem.RegistryFast Proofs.RegistryFastProofs.
 Import ListNotations.
 Open Scope N_scope.
 
@@ -167,6 +167,16 @@ Example C16_scheme_world_nontrivial :
       (run_scheme_ops w) = [true; true; false].
 Proof. vm_compute. split; reflexivity. Qed.
 
+(* The runner executes linear-cost arrangements of the model and of the
+   specification (vectors newest first beside their lengths, one reversal at
+   the end) so that histories of 10^5 registrations stay affordable; they
+   compute exactly run_ops and spec_run_ops. *)
+Theorem C16_fast_model_runner : forall ops : list reg_op, run_ops_fast ops = run_ops ops.
+Proof. exact run_ops_fast_eq. Qed.
+
+Theorem C16_fast_spec_runner : forall ops : list reg_op, spec_run_ops_fast ops = spec_run_ops ops.
+Proof. exact spec_run_ops_fast_eq. Qed.
+
 Check C16_registry_refines_map : forall ops : list reg_op,
   fst (run_ops ops) = fst (spec_run_ops ops) /\
   ((forall n, obs_get_field (snd (run_ops ops)) n = Some (spec_get_field (snd (spec_run_ops ops)) n)) /\
@@ -208,3 +218,5 @@ Print Assumptions C16_never_added_not_found.
 Print Assumptions C16_ident_in_filters.
 Print Assumptions C16_scheme_eq_iff_clone.
 Print Assumptions C16_scheme_worlds_same_length.
+Print Assumptions C16_fast_model_runner.
+Print Assumptions C16_fast_spec_runner.
